@@ -147,6 +147,11 @@ class _Delivery:
         self.ep.deliver(self.can_id, self.data, self.rtr, self.ext, self.ep.channel_obj.stamp(self.t), self.error)
 
 
+class InjectedCanError(can.CanOperationError):
+    """A driver error raised by the simulator as an injected fault (util.origin() attributes it to the run, not to the harness)."""
+    injected_fault = True
+
+
 class SimCyclicTask(can.broadcastmanager.CyclicSendTaskABC):
     """Periodic sender on the virtual clock (stands in for python-can's
     ThreadBasedCyclicSendTask).  Without modify_data."""
@@ -165,6 +170,7 @@ class SimCyclicTask(can.broadcastmanager.CyclicSendTaskABC):
         self.period = period
         self.period_ns = max(int(round(period * SEC)), 1)
         self.stopped = False
+        self.fail_next_stop = False     # fault: the driver refuses the next stop() once (e.g. a BCM socket error)
         self.emitted = 0
         ch = bus.channel_obj
         self.channel = ch
@@ -188,6 +194,10 @@ class SimCyclicTask(can.broadcastmanager.CyclicSendTaskABC):
 
     def stop(self):
         if not self.stopped:
+            if self.fail_next_stop:
+                self.fail_next_stop = False
+                self.channel.ctx.log("task-stop-refused", self.bus.name, self.tid)
+                raise InjectedCanError("simulated driver error: cyclic task could not be stopped")
             self.stopped = True
             self.channel.ctx.log("task-stop", self.bus.name, self.tid)
             try:
